@@ -183,6 +183,25 @@ def check_removal(case, R):
             must = sorted(i for i in range(n) if not any(a in removed for a in ref.ancestors(p, i)))
             R.check(len(called) == len(set(called)) and set(must) <= set(called), "callback-not-called",
                     f"cut_tree enter p={p} S={list(rem)} called for {called}, needed {must}", "cut_tree:enter:calls")
+        # callbacks that KEEP the node handles they are given (hand the node down / up as the propagated value and look at it later):
+        # remove a node iff its PARENT's id is in S (enter), iff one of its CHILDREN's ids is in S (leave)
+        if len(rem) <= 2:
+            def enter_keep(nd, parent_nd):
+                return nd, (parent_nd is not None and int(parent_nd.id) in rem)
+
+            want_k = set(range(n)) - ref.closure_removed(p, [i for i in range(n) if p[i] != -1 and p[i] in rem])
+            ok, out = R.impl("cut_tree(enter, node handles kept)", lambda: cut_tree(t, enter=enter_keep))
+            if ok:
+                judge(R, f"cut_tree(enter: remove iff the parent handle's id in {list(rem)})", p, t, out, want_k, 0, klass="cut_tree:enter:kept-handles")
+
+            def leave_keep(nd, child_nds):
+                return nd, any(int(c.id) in rem for c in child_nds)
+
+            want_k2 = set(range(n)) - ref.closure_removed(p, [i for i in range(1, n) if any(c in rem for c in ch[i])])
+            if not any(c in rem for c in ch[0]):
+                ok, out = R.impl("cut_tree(leave, node handles kept)", lambda: cut_tree(t, leave=leave_keep))
+                if ok:
+                    judge(R, f"cut_tree(leave: remove iff a child handle's id in {list(rem)})", p, t, out, want_k2, 0, klass="cut_tree:leave:kept-handles")
         # leave mode
         log2 = []
 
@@ -237,6 +256,14 @@ def check_types(case, R):
                 keep.update(ref.ancestors(p, i))
         R.outcome(len(keep))
         ops = [("CutByType", lambda: CutByType(ty)(t))]
+
+        def reassigned(ty=ty):
+            tr = CutByType(1 + ty % 3)  # built for another type, applied once, then its public parameter is re-assigned
+            R.attempt(tr, t)
+            tr.type = ty
+            return tr(t)
+
+        ops.append(("CutByType[type assigned after construction]", reassigned))
         if ty == 2:
             ops.append(("CutAxonTree", lambda: CutAxonTree()(t)))
         if ty == 3:
@@ -265,7 +292,9 @@ def check_order(case, R):
     for m in (1, 2, 3, 4):
         keep = {i for i in range(n) if ref.furcation_level(p, i) < m}
         R.outcome(len(keep), m)
-        tr = CutByFurcationOrder(m)
+        tr = CutByFurcationOrder(m + 1)
+        R.attempt(tr, t)
+        tr.max_furcation_order = m  # the public parameter re-assigned after construction (and after a first use)
         for rep in range(2):  # the same transform object applied twice must answer the same
             ok, out = R.impl("CutByFurcationOrder", tr, t)
             if ok:
